@@ -321,9 +321,10 @@ func c11subscribe(c *core.Ctx, ds, doEffect *ssa.Function) {
 				if isClosure(x.Call.Value) {
 					return 1
 				}
-				for _, a := range x.Call.Args {
+				for ai, a := range x.Call.Args {
 					if isClosure(a) {
-						if g := core.Callee(&x.Call); g != nil && core.FuncName(g) == "fpgo.HandlerDef.Post" {
+						g := core.Callee(&x.Call)
+						if g != nil && core.FuncName(g) == "fpgo.HandlerDef.Post" {
 							// the handler must be known non-nil here
 							for _, m := range core.EdgeCmps(ins.Block()) {
 								if m.Op == token.NEQ && core.IsNilConst(m.Y) && core.Path(m.X) == core.Path(x.Call.Args[0]) {
@@ -331,6 +332,13 @@ func c11subscribe(c *core.Ctx, ds, doEffect *ssa.Function) {
 								}
 							}
 							return 1
+						}
+						// a helper that itself does "Post to the handler if non-nil, else call" with its own parameters
+						if g != nil && p.InRepo(g) {
+							if hi, ok := c11postOrRun(p, g, ai); ok && hi < len(x.Call.Args) {
+								chosenBy = core.Path(x.Call.Args[hi])
+								return 1
+							}
 						}
 						return 100
 					}
@@ -428,4 +436,45 @@ func c11subscribe(c *core.Ctx, ds, doEffect *ssa.Function) {
 		}
 	})
 	c.Check(omin == 1 && omax == 1 && argOK, "R3", "doSubscribe/onnext", p.Pos(doSub.Pos()), "OnNext called exactly once with the evaluated value", fmt.Sprintf("OnNext is called %d..%d times or not with the evaluated value (argOK=%v)", omin, omax, argOK))
+}
+
+// c11postOrRun: g invokes its function parameter fi exactly once on every path - by Post on its handler
+// parameter (returned index) where that is known non-nil, by a direct call otherwise.
+func c11postOrRun(p *core.Prog, g *ssa.Function, fi int) (int, bool) {
+	if fi >= len(g.Params) {
+		return 0, false
+	}
+	fn := g.Params[fi]
+	hidx := -1
+	min, max := core.PathCount(g, func(ins ssa.Instruction) int {
+		call, ok := ins.(*ssa.Call)
+		if !ok {
+			if gi, isGo := ins.(*ssa.Go); isGo && (gi.Call.Value == ssa.Value(fn)) {
+				return 100
+			}
+			return 0
+		}
+		if call.Call.Value == ssa.Value(fn) {
+			return 1
+		}
+		for _, a := range call.Call.Args {
+			if a == ssa.Value(fn) {
+				if h := core.Callee(&call.Call); h != nil && core.FuncName(h) == "fpgo.HandlerDef.Post" {
+					for i, prm := range g.Params {
+						if call.Call.Args[0] == ssa.Value(prm) {
+							for _, m := range core.EdgeCmps(ins.Block()) {
+								if m.Op == token.NEQ && core.IsNilConst(m.Y) && m.X == ssa.Value(prm) {
+									hidx = i
+								}
+							}
+						}
+					}
+					return 1
+				}
+				return 100
+			}
+		}
+		return 0
+	}, nil)
+	return hidx, min == 1 && max == 1 && hidx >= 0
 }
